@@ -38,7 +38,10 @@ def gen_hist_case(rng, max_n=6, max_ops=7):
         elif r < 0.45:
             t = sorted(rng.sample(range(n), rng.randint(0, min(2, n)))) if rng.random() < 0.6 else None
             ops.append(dict(kind="setup", target=t, exclude=(sorted(rng.sample(range(n), 1)) if rng.random() < 0.2 else None), root=None))
-            if random.Random(rng.getrandbits(30)).random() < 0.3:
+            sr_ = random.Random(rng.getrandbits(30))
+            if sr_.random() < 0.3:
+                ops[-1]["run_debug"] = True  # setup() while RUN_DEBUG_NODES is on: still only setup nodes
+            if sr_.random() < 0.3:
                 ops[-1]["via_executor"] = True  # executor(target, exclude).setup() instead of dag.setup(target, exclude)
         elif r < 0.8:
             sel = dict(target=None, exclude=None, root=None)
@@ -158,6 +161,8 @@ CORPUS = [
     # a restart from a cache file runs a setup node the file does not hold: it is set up for the instance
     _chain_case(3, [[0, 2], [1, 2]], [_ex(target=[1], cache_in=True), _ex(from_cache=0), dict(kind="call", args=[], run_debug=False), _ex()], setup=[0]),
     _chain_case(3, [[0, 2], [1, 2]], [_ex(target=[1], cache_in=True), _ex(from_cache=0), dict(kind="call", args=[], run_debug=False)], setup=[0], is_async=True),
+    # setup() with RUN_DEBUG_NODES on and a debug node fed only by setup nodes
+    _chain_case(3, [[0, 1], [1, 2]], [dict(kind="setup", target=None, exclude=None, root=None, run_debug=True), dict(kind="call", args=[], run_debug=True), dict(kind="call", args=[], run_debug=True)], setup=[0], debug=[1, 2]),
     # setting up through an executor, both flavours
     _chain_case(3, [[0, 2], [1, 2]], [dict(kind="setup", target=[0], exclude=None, root=None, via_executor=True), dict(kind="setup", target=None, exclude=None, root=None, via_executor=True), dict(kind="call", args=[], run_debug=False)], setup=[0, 1], is_async=True),
     _chain_case(3, [[0, 2], [1, 2]], [dict(kind="setup", target=None, exclude=None, root=None, via_executor=True), dict(kind="call", args=[], run_debug=False)], setup=[0, 1]),
@@ -551,6 +556,10 @@ def run(pid, tier, seed, res, only=None):
                         seen[inst].add(x)
             if o.get("dup"):
                 res.hit("C03", "monitor", "node(s) %s entered more than once in one operation" % o["dup"], dict(base, kind="monitor", op_index=oi))
+        for oi, o in enumerate(obs):
+            if o.get("leaked"):
+                res.hit("C15", "monitor", "after operation %d (%s) the DAG-level results map holds results of non-setup node(s) %s" % (oi, o["op"]["kind"], o["leaked"]), dict(base, kind="monitor", op_index=oi))
+                break
         for oi, o in enumerate(obs):
             if o["op"]["kind"] in ("config", "compose") and o["status"] == "other-raise":
                 res.hit("C15", "monitor", "operation %d (%s) raised %s" % (oi, o["op"]["kind"], o.get("error")), dict(base, kind="monitor", op_index=oi))
